@@ -11,7 +11,7 @@ CONSTANTS
     MaxFrames = 4
     MaxTasks = 1
     MaxDepth = 2
-    Panics = FALSE
+    Panics = TRUE
     MaxSpans = 3
     IncomingKinds <- MC_IncBoth
     WithLazy = TRUE
